@@ -442,17 +442,34 @@ def gen_run(rng, cfg, nsess=None, big_p=0.15, exotic_p=0.08, base_k=0):
 
 
 def gen_scenario(rng, **kw):
-    """one or two recorder lives in the same directory (the second one appending)"""
+    """1-3 recorder lives in the same directory and on the same file prefix.  A later life either appends
+    (appending=True) or starts over (appending=False: the archive files it reaches and PREFIX.cdx are
+    truncated, files of the earlier life it does not reach stay behind untouched)."""
     r = rng.random()
-    if r < 0.6:
+    if r < 0.4:
         return {'runs': [gen_run(rng, gen_cfg(rng, appending=rng.random() < 0.15), **kw)]}
-    c1 = gen_cfg(rng)
-    c2 = gen_cfg(rng, appending=True)
-    # same naming scheme so that the second life meets the first one's files
-    c2['compress'] = c1['compress']
-    if rng.random() < 0.8:
-        c2['max_size'] = c1['max_size'] if rng.random() < 0.7 else (None if c1['max_size'] is None else rng.choice([0, 300, 6000]))
-    return {'runs': [gen_run(rng, c1, **kw), gen_run(rng, c2, base_k=100, **kw)]}
+    nlives = 2 if r < 0.9 else 3
+    c1 = gen_cfg(rng, appending=rng.random() < 0.1)
+    runs = [gen_run(rng, c1, **kw)]
+    prev = c1
+    for li in range(1, nlives):
+        c = gen_cfg(rng, appending=rng.random() < 0.5)
+        # mostly the same naming scheme, so that the later life meets the earlier one's files
+        if rng.random() < 0.85:
+            c['compress'] = prev['compress']
+        if rng.random() < 0.8:
+            c['max_size'] = prev['max_size'] if rng.random() < 0.7 else (None if prev['max_size'] is None else rng.choice([0, 300, 6000]))
+        if not c['appending'] and rng.random() < 0.8:
+            # starting over on a used prefix with an index: the stale-index situation
+            c['cdx'] = True
+            prev['cdx'] = True if rng.random() < 0.9 else prev['cdx']
+        if not c['appending'] and any(r['cfg']['cdx'] for r in runs):
+            # an index exists: a life that starts the archive over must manage it too (a life with cdx off would leave the
+            # old index behind, which is outside what the recorder is asked to do)
+            c['cdx'] = True
+        runs.append(gen_run(rng, c, base_k=100 * li, **kw))
+        prev = c
+    return {'runs': runs}
 
 
 # =========================================================================
@@ -714,11 +731,10 @@ def model_request(obs, by_file):
         if log_block is None:
             log_block = b''
     existing = []
-    if cfg['appending']:
-        for name, data in obs['before'].items():
-            tok = fname_token(name, cfg['compress'])
-            if tok:
-                existing.append('%s %d' % (tok, len(data)))
+    for name, data in obs['before'].items():
+        tok = fname_token(name, cfg['compress'])
+        if tok:
+            existing.append('%s %d' % (tok, len(data)))
     builtin = [obs['software'], 'WARC File Format 1.0',
                'http://bibnum.bnf.fr/WARC/WARC_ISO_28500_version1_latestdraft.pdf']
     toks = ['T' if cfg[x] else 'F' for x in ('compress', 'digests', 'cdx', 'appending', 'revisit')]
@@ -824,11 +840,9 @@ def real_canonical(obs, by_file):
     for name, data in obs['after'].items():
         if fname_token(name, cfg['compress']) is None:
             continue
+        files[name] = len(data)
         if name in by_file:
-            files[name] = len(data)
             entries[name] = [(r.offset, r.size, r.raw) for r in by_file[name][1]]
-        elif cfg['appending']:
-            files[name] = len(data)
     cdxname = PREFIX + '.cdx'
     new = obs['after'].get(cdxname)
     header = False
@@ -968,8 +982,22 @@ def oracle_c07(obs, by_file, directory_files, expectations):
         fails.append(('cdx-format', '_write_cdx_header', 'first line %r is not the CDX header' % (text[:1],)))
     lines = text[1:]
     by_id = {}
+    # "current archive files": when not appending, the files this life (re)started; every line of the index must
+    # describe a response record of those -- nothing of an earlier life on the same prefix may survive
+    current_ids = None
+    if not cfg['appending']:
+        current_ids = {r.id for (start, recs) in by_file.values() for r in recs if r.type == b'response'}
     for ln in lines:
+        if ln == CDX_HEADER.encode():
+            fails.append(('cdx-stale-index', '_start_new_cdx_file', 'a second CDX header line in the middle of the index'))
+            continue
         cols = ln.split(b' ')
+        if current_ids is not None and len(cols) == 9 and cols[8] not in current_ids:
+            fails.append(('cdx-stale-index', '_start_new_cdx_file',
+                          'line for %s (file %s) describes no response record of the archive this life wrote: the index '
+                          'of an earlier life on the same prefix was kept although the archive was started over'
+                          % (cols[8].decode('latin-1'), cols[7].decode('latin-1'))))
+            continue
         if len(cols) != 9:
             fails.append(('cdx-format', '_write_cdx_field', 'line %r has %d columns' % (ln[:200], len(cols))))
             continue
@@ -1075,6 +1103,8 @@ def run_scenario(scn, seed='s'):
                          'cfg:digests' if cfg['digests'] else 'cfg:nodigests',
                          'cfg:maxsize' if cfg['max_size'] is not None else 'cfg:single',
                          'cfg:appending' if cfg['appending'] else 'cfg:fresh',
+                         'life:%d:%s%s' % (min(li, 2), 'append' if cfg['appending'] else 'startover',
+                                           ':cdx-present' if (PREFIX + '.cdx') in obs['before'] else ''),
                          'files:%d' % min(len(by_file), 5), 'records:%s' % ('1-5' if nrec <= 5 else '6-20' if nrec <= 20 else '21+')]
             if cfg['log']:
                 out.tags.append('cfg:log')
